@@ -1,9 +1,11 @@
 """C06 — a spatial transform means one world-space map, however it is evaluated."""
 from ..core import Ctx
 from ..tables import t67_transforms as T
+from ..tables import t5x_sampling as S
 
 
 def run(ctx: Ctx) -> None:
     T.run_identity(ctx)
     T.run_views(ctx)
     T.run_composites(ctx)
+    S.run_transformers(ctx)
